@@ -14,10 +14,10 @@ with the fictitious pixel `-100`.  Differences from the C, all deliberate:
   Python re-computation of both formulas agrees (others are counted as ambiguous).
   Step 2 compares `|zp[jl]-zp[q]|` (float in C) — exact for such inputs.
 * **Bounds.**  Every array access goes through `rd`/`wr`, which substitute a default **and raise the `oob`
-  flag** when the index is outside the array (C20 observes the flag; it is never raised on explored inputs).
+  flag** when the index is outside the array (C20 observes the flag; `Props/C20fld.lean` proves it is never raised).
   C `int` indices are `Int` here so that a negative index (e.g. the fictitious pixel used as index) is seen.
-* **Termination.**  The three `for(;;)` loops run on fuel (`nspec+1`, `4·nspec+8`, `nspec+1`); running out of
-  fuel raises `fuelOut` (never on explored inputs).  No `partial`, no `while`.
+* **Termination.**  The `for(;;)` loops run on fuel (`nspec+1`, `4·nspec+8`, `nspec+1`, inner flood `nspec+2`); running
+  out of fuel raises `fuelOut` (`Props/C20fld.lean` proves it never happens).  No `partial`, no `while`.
 * **Static state.**  `neigh` is passed in (`Neigh.table nk nth`, what `partinit` leaves behind); `imi, ind, imo,
   zp` are fully overwritten before being read in the C, so they are local here.  The `malloc`ed `iq` starts
   from a caller-chosen filling `iqFill` (the checks run two different fillings).
@@ -100,11 +100,278 @@ structure FldOut where
   fuelOut : Bool
   npart : Int
 
+/-- ghost-trace push (no-op unless the run records its trace) -/
+@[inline] def pushIf (tr : Bool) (t : Array Step) (s : Step) : Array Step := if tr then t.push s else t
+
+/-! `pt_fld` is split loop by loop (`scan1a`/`step1a`, `nbr1b`/`step1b`, `nbr1c`/`flood1c`/`step1c`, `sweepPix`/`step2`)
+so that each loop carries its own specification in `Props/C20fld.lean`; the statements, their order and every array
+access are those of the C. -/
+
+/-- `neigh[8+9*ip]`: number of neighbours of pixel `ip` -/
+@[inline] def nbCnt (nb : Array Int) (ip : Int) : M Int := rd nb (8 + 9 * ip)
+
+/-- `neigh[i+9*ip]`: `i`-th neighbour of pixel `ip` -/
+@[inline] def nbAt (nb : Array Int) (ip : Int) (i : Nat) : M Int := rd nb ((i : Int) + 9 * ip)
+
+/-- `ind[m]` -/
+@[inline] def indAt (ind : Array Int) (m : Int) : M Int := rd ind m
+
+/-- 1.a neighbour scan: `for (i…) if (imo[ipp] > 0 || imo[ipp] == iwshed) {…; break;}` — is there such a neighbour? -/
+def scan1a (nb imo : Array Int) (ip : Int) : M Bool := do
+  let cnt ← nbCnt nb ip
+  let mut found := false
+  for i in [0:cnt.toNat] do
+    let ipp ← nbAt nb ip i
+    let l ← rd imo ipp
+    if l > 0 || l == 0 then
+      found := true
+      break
+  return found
+
+/-- 1.a: mark the pixels of level `ih` (from `ind[m]` on), queue those that touch a labelled pixel -/
+def step1a (nspecN : Nat) (nb imi ind : Array Int) (ih : Int) (tr : Bool)
+    (imo imd iq : Array Int) (qe m : Int) (trace : Array Step) :
+    M (Array Int × Array Int × Array Int × Int × Int × Array Step × Bool) := do
+  let nspec : Int := nspecN
+  let mut imo := imo
+  let mut imd := imd
+  let mut iq := iq
+  let mut qe := qe
+  let mut m := m
+  let mut trace := trace
+  let mut brk := false
+  for _ in [0:nspecN + 1] do
+    let ip ← indAt ind m
+    let lv ← rd imi ip
+    if lv != ih then
+      brk := true; break
+    imo ← wr imo ip (-2)
+    trace := pushIf tr trace (.mark ip.toNat)
+    let found ← scan1a nb imo ip
+    if found then
+      imd ← wr imd ip 1
+      let (a, b) ← fifoAdd nspec iq qe ip
+      iq := a; qe := b
+    if m > nspec - 2 then
+      brk := true; break
+    else m := m + 1
+  pure (imo, imd, iq, qe, m, trace, brk)
+
+/-- 1.b label decision for the dequeued pixel (`c = imo[ip]`) against a labelled neighbour (`l = imo[ipp] ≥ 0`):
+    new value and whether it is an `inherit` (else `conflict`); `none` = unchanged -/
+def relabel (c l : Int) : Option (Int × Bool) :=
+  if l > 0 then
+    if c == -2 || c == 0 then some (l, true)
+    else if c != l then some (0, false) else none
+  else if c == -2 then some (0, false) else none
+
+/-- 1.b neighbour loop of the dequeued pixel `ip` -/
+def nbr1b (nspecN : Nat) (nb : Array Int) (tr : Bool) (ip dist : Int)
+    (imo imd iq : Array Int) (qe : Int) (trace : Array Step) :
+    M (Array Int × Array Int × Array Int × Int × Array Step) := do
+  let nspec : Int := nspecN
+  let mut imo := imo
+  let mut imd := imd
+  let mut iq := iq
+  let mut qe := qe
+  let mut trace := trace
+  let cnt ← nbCnt nb ip
+  for i in [0:cnt.toNat] do
+    let ipp ← nbAt nb ip i
+    let l ← rd imo ipp
+    let dq ← rd imd ipp
+    if dq < dist && (l > 0 || l == 0) then
+      let c ← rd imo ip
+      match relabel c l with
+      | some (v, inh) =>
+        imo ← wr imo ip v
+        trace := pushIf tr trace (if inh then .inherit ip.toNat ipp.toNat else .conflict ip.toNat)
+      | none => pure ()
+    else if l == -2 && dq == 0 then
+      imd ← wr imd ipp (dist + 1)
+      let (a, b) ← fifoAdd nspec iq qe ipp
+      iq := a; qe := b
+  pure (imo, imd, iq, qe, trace)
+
+/-- 1.b: process the queue in geodesic-distance order (fictitious pixel `-100` separates the distances) -/
+def step1b (nspecN : Nat) (nb : Array Int) (tr : Bool)
+    (imo imd iq : Array Int) (qs qe : Int) (trace : Array Step) :
+    M (Array Int × Array Int × Array Int × Int × Int × Array Step × Bool) := do
+  let nspec : Int := nspecN
+  let fict : Int := -100
+  let mut imo := imo
+  let mut imd := imd
+  let mut iq := iq
+  let mut qs := qs
+  let mut qe := qe
+  let mut trace := trace
+  let mut dist : Int := 1
+  let (a, b) ← fifoAdd nspec iq qe fict
+  iq := a; qe := b
+  let mut brk := false
+  for _ in [0:4 * nspecN + 8] do
+    let (v, s) ← fifoFirst nspec iq qs
+    let mut ip := v
+    qs := s
+    if ip == fict then
+      if qs == qe then
+        brk := true; break
+      else
+        let (a, b) ← fifoAdd nspec iq qe fict
+        iq := a; qe := b
+        dist := dist + 1
+        let (v, s) ← fifoFirst nspec iq qs
+        ip := v; qs := s
+    let (a, b, c, d, e) ← nbr1b nspecN nb tr ip dist imo imd iq qe trace
+    imo := a; imd := b; iq := c; qe := d; trace := e
+    trace := pushIf tr trace (.finalize ip.toNat)
+  pure (imo, imd, iq, qs, qe, trace, brk)
+
+/-- 1.c neighbour loop of the dequeued pixel `ipp`: mask neighbours join the new basin `icl` -/
+def nbr1c (nspecN : Nat) (nb : Array Int) (tr : Bool) (icl ipp : Int)
+    (imo iq : Array Int) (qe : Int) (trace : Array Step) :
+    M (Array Int × Array Int × Int × Array Step) := do
+  let nspec : Int := nspecN
+  let mut imo := imo
+  let mut iq := iq
+  let mut qe := qe
+  let mut trace := trace
+  let cnt ← nbCnt nb ipp
+  for i in [0:cnt.toNat] do
+    let ippp ← nbAt nb ipp i
+    let l ← rd imo ippp
+    if l == -2 then
+      let (a, b) ← fifoAdd nspec iq qe ippp
+      iq := a; qe := b
+      imo ← wr imo ippp icl
+      trace := pushIf tr trace (.flood ippp.toNat ipp.toNat)
+  pure (imo, iq, qe, trace)
+
+/-- 1.c inner `for(;;)`: flood the mask plateau of the new seed until the queue is empty -/
+def flood1c (nspecN : Nat) (nb : Array Int) (tr : Bool) (icl : Int)
+    (imo iq : Array Int) (qs qe : Int) (trace : Array Step) :
+    M (Array Int × Array Int × Int × Int × Array Step × Bool) := do
+  let nspec : Int := nspecN
+  let mut imo := imo
+  let mut iq := iq
+  let mut qs := qs
+  let mut qe := qe
+  let mut trace := trace
+  let mut brk2 := false
+  for _ in [0:nspecN + 2] do
+    if qs == qe then
+      brk2 := true; break
+    let (v, s) ← fifoFirst nspec iq qs
+    let ipp := v
+    qs := s
+    let (a, b, c, d) ← nbr1c nspecN nb tr icl ipp imo iq qe trace
+    imo := a; iq := b; qe := c; trace := d
+    trace := pushIf tr trace (.closed ipp.toNat)
+  pure (imo, iq, qs, qe, trace, brk2)
+
+/-- 1.c: the level's pixels still `MASK` seed new basins; returns also "some loop ran out of fuel" -/
+def step1c (nspecN : Nat) (nb imi ind : Array Int) (ih : Int) (tr : Bool)
+    (imo imd iq : Array Int) (qs qe icl m : Int) (trace : Array Step) :
+    M (Array Int × Array Int × Array Int × Int × Int × Int × Int × Array Step × Bool) := do
+  let nspec : Int := nspecN
+  let mut imo := imo
+  let mut imd := imd
+  let mut iq := iq
+  let mut qs := qs
+  let mut qe := qe
+  let mut icl := icl
+  let mut m := m
+  let mut trace := trace
+  let mut fo := false
+  let mut brk := false
+  for _ in [0:nspecN + 1] do
+    let ip ← indAt ind m
+    let lv ← rd imi ip
+    if lv != ih then
+      brk := true; break
+    imd ← wr imd ip 0
+    let c ← rd imo ip
+    if c == -2 then
+      icl := icl + 1
+      let (a, b) ← fifoAdd nspec iq qe ip
+      iq := a; qe := b
+      imo ← wr imo ip icl
+      trace := pushIf tr trace (.seed ip.toNat icl.toNat)
+      let (a, b, c, d, e, brk2) ← flood1c nspecN nb tr icl imo iq qs qe trace
+      imo := a; iq := b; qs := c; qe := d; trace := e
+      if !brk2 then fo := true
+    if m > nspec - 2 then
+      brk := true; break
+    else m := m + 1
+  if !brk then fo := true
+  pure (imo, imd, iq, qs, qe, icl, m, trace, fo)
+
+/-- 2. one watershed-line pixel `jl` of a sweep: nearest (in `zp`) labelled neighbour in the snapshot `imo` -/
+def sweepPix (nb zp : Array Int) (zpmax : Int) (tr : Bool) (imo : Array Int) (jlN : Nat)
+    (imd : Array Int) (trace : Array Step) : M (Array Int × Array Step) := do
+  let jl : Int := jlN
+  let mut imd := imd
+  let mut trace := trace
+  let mut ipt : Int := -1
+  let c ← rd imo jl
+  if c == 0 then
+    let mut ep1 := zpmax
+    let cnt ← nbCnt nb jl
+    for jn in [0:cnt.toNat] do
+      let q ← nbAt nb jl jn
+      let zj ← rd zp jl
+      let zq ← rd zp q
+      let diff := (zj - zq).natAbs
+      let lq ← rd imo q
+      if (diff : Int) ≤ ep1 && lq != 0 then
+        ep1 := diff
+        ipt := jn
+    if ipt > -1 then
+      let q ← rd nb (ipt + 9 * jl)
+      let lq ← rd imo q
+      imd ← wr imd jl lq
+      trace := pushIf tr trace (.resolve jlN q.toNat)
+  pure (imd, trace)
+
+/-- 2. five clean-up sweeps -/
+def step2 (nspecN : Nat) (nb zp : Array Int) (zpmax : Int) (tr : Bool) (imo : Array Int) (trace : Array Step) :
+    M (Array Int × Array Step) := do
+  let mut imo := imo
+  let mut trace := trace
+  for _ in [0:5] do
+    let mut imd := imo
+    trace := pushIf tr trace .sweep
+    for jlN in [0:nspecN] do
+      let (a, b) ← sweepPix nb zp zpmax tr imo jlN imd trace
+      imd := a; trace := b
+    imo := imd
+    if imo.all (· > 0) then break
+  pure (imo, trace)
+
+/-- one level `ih` of step 1 -/
+def levelStep (nspecN : Nat) (nb imi ind : Array Int) (ihN : Nat) (tr : Bool)
+    (imo imd iq : Array Int) (qs qe icl m : Int) (trace : Array Step) :
+    M (Array Int × Array Int × Array Int × Int × Int × Int × Int × Array Step × Bool) := do
+  let ih : Int := ihN
+  let msave := m
+  let trace := pushIf tr trace (.level ihN)
+  let (imo, imd, iq, qe, _, trace, brkA) ← step1a nspecN nb imi ind ih tr imo imd iq qe m trace
+  let (imo, imd, iq, qs, qe, trace, brkB) ← step1b nspecN nb tr imo imd iq qs qe trace
+  let trace := pushIf tr trace .endqueue
+  let (imo, imd, iq, qs, qe, icl, m, trace, foC) ← step1c nspecN nb imi ind ih tr imo imd iq qs qe icl msave trace
+  let trace := pushIf tr trace .endlevel
+  pure (imo, imd, iq, qs, qe, icl, m, trace, !brkA || !brkB || foC)
+
+/-- `zpmax = max zp` -/
+def zpMax (nspecN : Nat) (zp : Array Int) : M Int := do
+  let mut zpmax ← rd zp 0
+  for i in [1:nspecN] do
+    let v ← rd zp i
+    if v > zpmax then zpmax := v
+  pure zpmax
+
 /-- `pt_fld` -/
 def ptFld (nspecN : Nat) (nb imi ind zp : Array Int) (ihmax : Nat) (iqFill : Int) (tr : Bool) : M FldOut := do
-  let nspec : Int := nspecN
-  let mask : Int := -2
-  let fict : Int := -100
   let mut imo : Array Int := Array.replicate nspecN (-1)
   let mut imd : Array Int := Array.replicate nspecN 0
   let mut iq : Array Int := Array.replicate nspecN iqFill
@@ -113,137 +380,15 @@ def ptFld (nspecN : Nat) (nb imi ind zp : Array Int) (ihmax : Nat) (iqFill : Int
   let mut icl : Int := 0
   let mut trace : Array Step := #[]
   let mut fuelOut := false
-  let mut zpmax ← rd zp 0
-  for i in [1:nspecN] do
-    let v ← rd zp i
-    if v > zpmax then zpmax := v
+  let zpmax ← zpMax nspecN zp
   let mut m : Int := 0
   for ihN in [0:ihmax] do
-    let ih : Int := ihN
-    let msave := m
-    if tr then trace := trace.push (.level ihN)
-    -- 1.a
-    let mut brk := false
-    for _ in [0:nspecN + 1] do
-      let ip ← rd ind m
-      if (← rd imi ip) != ih then
-        brk := true; break
-      imo ← wr imo ip mask
-      if tr then trace := trace.push (.mark ip.toNat)
-      let cnt ← rd nb (8 + 9 * ip)
-      for i in [0:cnt.toNat] do
-        let ipp ← rd nb ((i : Int) + 9 * ip)
-        let l ← rd imo ipp
-        if l > 0 || l == 0 then
-          imd ← wr imd ip 1
-          let (a, b) ← fifoAdd nspec iq qe ip
-          iq := a; qe := b
-          break
-      if m > nspec - 2 then
-        brk := true; break
-      else m := m + 1
-    if !brk then fuelOut := true
-    -- 1.b
-    let mut dist : Int := 1
-    let (a, b) ← fifoAdd nspec iq qe fict
-    iq := a; qe := b
-    brk := false
-    for _ in [0:4 * nspecN + 8] do
-      let (v, s) ← fifoFirst nspec iq qs
-      let mut ip := v
-      qs := s
-      if ip == fict then
-        if qs == qe then
-          brk := true; break
-        else
-          let (a, b) ← fifoAdd nspec iq qe fict
-          iq := a; qe := b
-          dist := dist + 1
-          let (v, s) ← fifoFirst nspec iq qs
-          ip := v; qs := s
-      let cnt ← rd nb (8 + 9 * ip)
-      for i in [0:cnt.toNat] do
-        let ipp ← rd nb ((i : Int) + 9 * ip)
-        let l ← rd imo ipp
-        let dq ← rd imd ipp
-        if dq < dist && (l > 0 || l == 0) then
-          if l > 0 then
-            let c ← rd imo ip
-            if c == mask || c == 0 then
-              imo ← wr imo ip l
-              if tr then trace := trace.push (.inherit ip.toNat ipp.toNat)
-            else if c != l then
-              imo ← wr imo ip 0
-              if tr then trace := trace.push (.conflict ip.toNat)
-          else if (← rd imo ip) == mask then
-            imo ← wr imo ip 0
-            if tr then trace := trace.push (.conflict ip.toNat)
-        else if l == mask && dq == 0 then
-          imd ← wr imd ipp (dist + 1)
-          let (a, b) ← fifoAdd nspec iq qe ipp
-          iq := a; qe := b
-      if tr then trace := trace.push (.finalize ip.toNat)
-    if !brk then fuelOut := true
-    if tr then trace := trace.push .endqueue
-    -- 1.c
-    m := msave
-    brk := false
-    for _ in [0:nspecN + 1] do
-      let ip ← rd ind m
-      if (← rd imi ip) != ih then
-        brk := true; break
-      imd ← wr imd ip 0
-      if (← rd imo ip) == mask then
-        icl := icl + 1
-        let (a, b) ← fifoAdd nspec iq qe ip
-        iq := a; qe := b
-        imo ← wr imo ip icl
-        if tr then trace := trace.push (.seed ip.toNat icl.toNat)
-        let mut brk2 := false
-        for _ in [0:nspecN + 2] do
-          if qs == qe then
-            brk2 := true; break
-          let (v, s) ← fifoFirst nspec iq qs
-          let ipp := v
-          qs := s
-          let cnt ← rd nb (8 + 9 * ipp)
-          for i in [0:cnt.toNat] do
-            let ippp ← rd nb ((i : Int) + 9 * ipp)
-            if (← rd imo ippp) == mask then
-              let (a, b) ← fifoAdd nspec iq qe ippp
-              iq := a; qe := b
-              imo ← wr imo ippp icl
-              if tr then trace := trace.push (.flood ippp.toNat ipp.toNat)
-          if tr then trace := trace.push (.closed ipp.toNat)
-        if !brk2 then fuelOut := true
-      if m > nspec - 2 then
-        brk := true; break
-      else m := m + 1
-    if !brk then fuelOut := true
-    if tr then trace := trace.push .endlevel
+    let (a, b, c, d, e, f, g, h, fo) ← levelStep nspecN nb imi ind ihN tr imo imd iq qs qe icl m trace
+    imo := a; imd := b; iq := c; qs := d; qe := e; icl := f; m := g; trace := h
+    if fo then fuelOut := true
   -- 2. watershed-line pixels
-  for _ in [0:5] do
-    imd := imo
-    if tr then trace := trace.push .sweep
-    for jlN in [0:nspecN] do
-      let jl : Int := jlN
-      let mut ipt : Int := -1
-      if (← rd imo jl) == 0 then
-        let mut ep1 := zpmax
-        let cnt ← rd nb (8 + 9 * jl)
-        for jn in [0:cnt.toNat] do
-          let q ← rd nb ((jn : Int) + 9 * jl)
-          let diff := ((← rd zp jl) - (← rd zp q)).natAbs
-          if (diff : Int) ≤ ep1 && (← rd imo q) != 0 then
-            ep1 := diff
-            ipt := jn
-        if ipt > -1 then
-          let q ← rd nb (ipt + 9 * jl)
-          imd ← wr imd jl (← rd imo q)
-          if tr then trace := trace.push (.resolve jlN q.toNat)
-    imo := imd
-    if imo.all (· > 0) then break
-  pure { imo := imo, trace := trace, fuelOut := fuelOut, npart := icl }
+  let (a, b) ← step2 nspecN nb zp zpmax tr imo trace
+  pure { imo := a, trace := b, fuelOut := fuelOut, npart := icl }
 
 structure Result where
   /-- label map, row-major `[ifreq][iang]` -/
@@ -256,36 +401,39 @@ structure Result where
   fuelOut : Bool
   const : Bool
 
-/-- `partition(spec, ipart, nk, nth, ihmax)` with `neigh` = `nb` -/
-def partition (nk nth ihmax : Nat) (nb : Array Int) (spec : Array Int) (iqFill : Int := 0) (tr : Bool := false) :
-    Result :=
+/-- body of `partition` in the bounds-checking monad -/
+def partitionM (nk nth ihmax : Nat) (nb : Array Int) (spec : Array Int) (iqFill : Int) (tr : Bool) : M Result := do
   let mk := nk
   let mth := nth
   let nspec := nk * nth
-  let (r, oob) := (show M Result from do
-    let mut z : Array Int := Array.replicate nspec 0
-    for iang in [0:mth] do
-      for ifreq in [0:mk] do
-        z ← wr z ((ifreq : Int) + mk * iang) (← rd spec ((ifreq : Int) * mth + iang))
-    let mut zmin ← rd z 0
-    let mut zmax := zmin
-    for i in [1:nspec] do
-      let v ← rd z i
-      if v < zmin then zmin := v
-      if v > zmax then zmax := v
-    if zmax == zmin then
-      return { labels := Array.replicate nspec 0, imi := #[], ind := #[], trace := #[], oob := false,
-               fuelOut := false, const := true }
-    let zp := z.map (zmax - ·)
-    let imi : Array Int := z.map fun v => (levelOf ihmax zmin zmax v : Int)
-    let ind ← ptsort ihmax nspec imi
-    let f ← ptFld nspec nb imi ind zp ihmax iqFill tr
-    let mut out : Array Int := Array.replicate nspec 0
+  let mut z : Array Int := Array.replicate nspec 0
+  for iang in [0:mth] do
     for ifreq in [0:mk] do
-      for iang in [0:mth] do
-        out ← wr out ((ifreq : Int) * mth + iang) (← rd f.imo ((ifreq : Int) + mk * iang))
-    return { labels := out, imi := imi, ind := ind, trace := f.trace, oob := false, fuelOut := f.fuelOut,
-             const := false }).run false
+      z ← wr z ((ifreq : Int) + mk * iang) (← rd spec ((ifreq : Int) * mth + iang))
+  let mut zmin ← rd z 0
+  let mut zmax := zmin
+  for i in [1:nspec] do
+    let v ← rd z i
+    if v < zmin then zmin := v
+    if v > zmax then zmax := v
+  if zmax == zmin then
+    return { labels := Array.replicate nspec 0, imi := #[], ind := #[], trace := #[], oob := false,
+             fuelOut := false, const := true }
+  let zp := z.map (zmax - ·)
+  let imi : Array Int := z.map fun v => (levelOf ihmax zmin zmax v : Int)
+  let ind ← ptsort ihmax nspec imi
+  let f ← ptFld nspec nb imi ind zp ihmax iqFill tr
+  let mut out : Array Int := Array.replicate nspec 0
+  for ifreq in [0:mk] do
+    for iang in [0:mth] do
+      out ← wr out ((ifreq : Int) * mth + iang) (← rd f.imo ((ifreq : Int) + mk * iang))
+  return { labels := out, imi := imi, ind := ind, trace := f.trace, oob := false, fuelOut := f.fuelOut,
+           const := false }
+
+/-- `partition(spec, ipart, nk, nth, ihmax)` with `neigh` = `nb` -/
+def partition (nk nth ihmax : Nat) (nb : Array Int) (spec : Array Int) (iqFill : Int := 0) (tr : Bool := false) :
+    Result :=
+  let (r, oob) := (partitionM nk nth ihmax nb spec iqFill tr).run false
   { r with oob := oob }
 
 /-- graph on which the ghost trace is validated: the neighbour rows and the discretised levels -/
